@@ -4,7 +4,7 @@
     regenerated from message/{attrs,marshal,sanity}.go ([Generated.MessageGen]);
     JSON is at the tree level, the legacy format at the text level. *)
 From Verif Require Import Lib.Base Lib.Json Lib.Str Generated.MessageGen Model.Message
-  Model.C15Check Proofs.StrProofs Proofs.MessageProofs.
+  Model.C15Check Proofs.StrProofs Proofs.MessageProofs Lib.JsonText Proofs.JsonTextProofs.
 
 (** ** What the code says now (regenerated on every run) is what the property
     and the model speak about. *)
@@ -281,3 +281,21 @@ Example c15_ex_refusals :
   unmarshal (tx "{""ifVer"":""x""}") (Some (JObj [(tx "ifVer", JStr (tx "x"))])) = Val (Err 4%N) /\
   unmarshal (tx "{""username"":""u""}") (Some (JObj [(tx "username", JStr (tx "u"))])) = Val (Err 1%N).
 Proof. vm_compute. repeat split; reflexivity. Qed.
+
+(** ** The text level (JSON format): [print] is the output language of Go's
+    encoder, [parse] the JSON grammar as Go's decoder reads it (Lib/JsonText.v,
+    compared with encoding/json on every text of every run).  For an attribute
+    set whose strings are text and whose extension values carry no fraction /
+    exponent literal, the TEXT the encoder emits parses back to the tree it was
+    printed from, and decoding that text gives the attributes back. *)
+Theorem c15_text_roundtrip : forall a,
+  (7 <= ifVer a)%Z -> sanity_spec a = true -> in_range a = true -> exts_canonical a = true ->
+  JsonText.wf (marshal_json a) = true ->
+  let s := JsonText.print (marshal_json a) in
+  JsonText.parse s = Some (marshal_json a) /\
+  unmarshal s (JsonText.parse s) = Val (Ok (normalize a)).
+Proof.
+  intros a Hv Hs Hr Hc Hw s. subst s. rewrite (JsonTextProofs.parse_print _ Hw). split; [reflexivity|].
+  exact (proj1 (proj2 (json_roundtrip_marshal a _ Hv Hs Hr Hc))).
+Qed.
+Print Assumptions c15_text_roundtrip.
